@@ -12,16 +12,33 @@ import (
 	"Havoc/pkg/logger"
 )
 
+// agentDir returns the loot folder of an agent. Agent ids also arrive from operators and
+// from 3rd party agent services, so an id that is not a plain folder name (empty, ".",
+// "..", contains a path separator or a NUL byte) is refused.
+func (l Logr) agentDir(AgentID string) (string, bool) {
+	if AgentID == "" || AgentID == "." || AgentID == ".." || strings.ContainsAny(AgentID, "/\x00") || strings.ContainsRune(AgentID, filepath.Separator) {
+		return "", false
+	}
+
+	return filepath.Clean(l.AgentPath + "/" + AgentID), true
+}
+
+// isInside tells if the (cleaned) path lies below dir. A plain strings.HasPrefix( path, dir )
+// is not enough: "Download_x" starts with "Download" too.
+func isInside(dir, path string) bool {
+	return strings.HasPrefix(path, filepath.Clean(dir)+string(filepath.Separator))
+}
+
 func (l Logr) AddAgentInput(AgentType, AgentID, User, TaskID, Input string, time string) {
 	var (
-		DemonPath    = l.AgentPath + "/" + AgentID
-		DemonLogFile = DemonPath + "/Console_" + AgentID + ".log"
-		InputString  string
+		DemonPath, ok = l.agentDir(AgentID)
+		DemonLogFile  = DemonPath + "/Console_" + AgentID + ".log"
+		InputString   string
 	)
 
 	// check if we don't have a path traversal
 	path := filepath.Clean(DemonLogFile)
-	if !strings.HasPrefix(path, DemonPath) {
+	if !ok || !isInside(DemonPath, path) {
 		logger.Error("File didn't started with agent loot path. abort")
 		return
 	}
@@ -49,13 +66,13 @@ func (l Logr) AddAgentInput(AgentType, AgentID, User, TaskID, Input string, time
 
 func (l Logr) AddAgentRaw(AgentID, Raw string) {
 	var (
-		DemonPath    = l.AgentPath + "/" + AgentID
-		DemonLogFile = DemonPath + "/Console_" + AgentID + ".log"
+		DemonPath, ok = l.agentDir(AgentID)
+		DemonLogFile  = DemonPath + "/Console_" + AgentID + ".log"
 	)
 
 	// check if we don't have a path traversal
 	path := filepath.Clean(DemonLogFile)
-	if !strings.HasPrefix(path, DemonPath) {
+	if !ok || !isInside(DemonPath, path) {
 		logger.Error("File didn't started with agent loot path. abort")
 		return
 	}
@@ -81,13 +98,13 @@ func (l Logr) AddAgentRaw(AgentID, Raw string) {
 
 func (l Logr) DemonAddOutput(DemonID string, Output map[string]string, time string) {
 	var (
-		DemonPath    = l.AgentPath + "/" + filepath.Clean(DemonID)
-		DemonLogFile = DemonPath + "/Console_" + DemonID + ".log"
+		DemonPath, ok = l.agentDir(DemonID)
+		DemonLogFile  = DemonPath + "/Console_" + DemonID + ".log"
 	)
 
 	// check if we don't have a path traversal
 	path := filepath.Clean(DemonLogFile)
-	if !strings.HasPrefix(path, DemonPath) {
+	if !ok || !isInside(DemonPath, path) {
 		logger.Error("File didn't started with agent loot path. abort")
 		return
 	}
@@ -133,14 +150,14 @@ func (l Logr) DemonAddOutput(DemonID string, Output map[string]string, time stri
 
 func (l Logr) DemonAddDownloadedFile(DemonID, FileName string, FileBytes []byte) {
 	var (
-		DemonPath        = l.AgentPath + "/" + DemonID
+		DemonPath, ok    = l.agentDir(DemonID)
 		DemonDownloadDir = DemonPath + "/Download"
-		DemonDownload    = DemonDownloadDir + "/" + FileName
+		// the cleaned path is both what is checked and what is created
+		DemonDownload = filepath.Clean(DemonDownloadDir + "/" + FileName)
 	)
 
 	// check if we don't have a path traversal
-	path := filepath.Clean(DemonDownload)
-	if !strings.HasPrefix(path, DemonDownloadDir) {
+	if !ok || !isInside(DemonDownloadDir, DemonDownload) {
 		logger.Error("File didn't started with agent download path. abort")
 		return
 	}
@@ -176,14 +193,14 @@ func (l Logr) DemonAddDownloadedFile(DemonID, FileName string, FileBytes []byte)
 
 func (l Logr) DemonSaveScreenshot(DemonID, Name string, BmpBytes []byte) error {
 	var (
-		DemonPath          = l.AgentPath + "/" + DemonID
+		DemonPath, ok      = l.agentDir(DemonID)
 		DemonScreenshotDir = DemonPath + "/Screenshots"
-		DemonScreenshot    = DemonScreenshotDir + "/" + Name
+		// the cleaned path is both what is checked and what is created
+		DemonScreenshot = filepath.Clean(DemonScreenshotDir + "/" + Name)
 	)
 
 	// check if we don't have a path traversal
-	path := filepath.Clean(DemonScreenshot)
-	if !strings.HasPrefix(path, DemonScreenshotDir) {
+	if !ok || !isInside(DemonScreenshotDir, DemonScreenshot) {
 		logger.Error("File didn't started with agent screenshot path. abort")
 		return errors.New("file didn't started with agent screenshot path. abort")
 	}
